@@ -138,6 +138,15 @@ let handle (fs : string list) : string =
      | Raise _ -> "!opt"                    (* the option parser exits with an error *)
      | Ok _ -> show_res_cfg (docutils_config (env_of imp) optparse_rules Model.fields opts))
   | ["sphinx"; imp; conf] -> show_res_cfg (sphinx_config (env_of imp) Model.fields (parse_kwargs conf))
+  | ["shares"; imp; base; kw] ->
+    (* fields of base.copy( **kw) whose mutable container is the very object held by base *)
+    (match mk_config (env_of imp) Model.fields (parse_kwargs base) with
+     | Raise e -> "!base" ^ show_exn e
+     | Ok c ->
+       (match copy_o (env_of imp) Model.fields c (parse_kwargs kw) with
+        | Raise e -> show_exn e
+        | Ok r -> "ok " ^ String.concat ";" (List.filter_map (fun f ->
+            if shares_field f.f_name r then Some (field_of_str f.f_name) else None) Model.fields)))
   | ["reach"] ->
     (* rules of the option-string if-chain that decide no docutils-visible field; and per field its rule *)
     String.concat "," (List.map (fun i -> string_of_int (int_of_nat i)) (unused_rule_indices optparse_rules Model.fields))
